@@ -417,8 +417,12 @@ class SciPyOptimizer(Optimizer):
         compute_gradients = get_gradient and gradient is None
 
         if compute_functions or compute_gradients:
+            # Speculative evaluation never requests gradients for methods
+            # that do not use them:
             compute_functions = compute_functions or self._config.optimizer.speculative
-            compute_gradients = compute_gradients or self._config.optimizer.speculative
+            compute_gradients = compute_gradients or (
+                self._config.optimizer.speculative and self._method not in _NO_GRADIENT
+            )
             new_function, new_gradient = self._compute_functions_and_gradients(
                 variables,
                 compute_functions=compute_functions,
